@@ -364,6 +364,33 @@ func runC13(c *Ctx, idx int, o *Obs) {
 		}
 	}
 
+	// ---- a malformed tree at any position of a Newick stream: the trees before it are delivered, then an error is
+	// reported; nothing is skipped in silence
+	if ntrees >= 2 {
+		k := r.Intn(ntrees)
+		var parts []string
+		for i, s := range texts {
+			if i == k {
+				parts = append(parts, "((unfinished,tree;")
+			} else {
+				parts = append(parts, s)
+			}
+		}
+		bad := strings.Join(parts, "\n") + "\n"
+		recs := readMulti(bad, utils.FORMAT_NEWICK)
+		o.Ev("malformed_tree_in_stream", 1)
+		nerr, good := 0, 0
+		for _, rc := range recs {
+			if rc.err != nil {
+				nerr++
+			} else {
+				good++
+			}
+		}
+		o.Check(nerr >= 1, "multi_error_not_reported", fmt.Sprintf("tree %d of %d is malformed: %d trees delivered and no error record (trees skipped in silence)", k, ntrees, good), bad, "format", "newick")
+		o.Check(good <= k, "multi_error_position", fmt.Sprintf("tree %d of %d is malformed: %d trees delivered without error", k, ntrees, good), bad, "format", "newick")
+	}
+
 	// ---- the reformat commands ------------------------------------------------------------------
 	if idx%6 == 0 {
 		f := tmpFile(c, "in.nw", doc)
